@@ -189,6 +189,15 @@ def apiOp (op : String) (args : List String) : Option String :=
   | "DecodeUint32", [d, t] => do let d ← hexToBytes d; let t ← t.toNat?; pure (fmtDecode (decode readUint32 d (UInt64.ofNat t)) (fun v => toString v.toNat))
   | "DecodeUint", [d, t] => do let d ← hexToBytes d; let t ← t.toNat?; pure (fmtDecode (decode readUint d (UInt64.ofNat t)) (fun v => toString v.toNat))
   | "DecodeString", [d, t] => do let d ← hexToBytes d; let t ← hexToBytes t; pure (fmtDecode (decode readString d t) hexOrDash)
+  | "FloatArray", [d, st] => do
+    -- HandleArrayValues with the ReadFloat64 handler on a Buffer whose stack slice is `st`
+    let d ← hexToBytes d; let st ← parseStack st
+    let res := (runA Gen.HandleArrayValues.machine d floatH garbageHavoc st #[] []).1
+    pure (match res.kind with
+      | .ok => s!"ok {if res.hs.isEmpty then "-" else ",".intercalate (res.hs.map toString)} {res.p}"
+      | .err e => s!"err:{e.name} {res.p}"
+      | .herr _ => "herr"
+      | _ => "panic")
   | "StdTree", [d] => do
     -- ReadValue, then the StdLibCompatible helper that fits the value's kind
     let d ← hexToBytes d
